@@ -155,11 +155,28 @@ func importFamily(tier string) *FamilySpec {
 
 func bystanderFamily(tier string) *FamilySpec {
 	fs := HandFamily("BYSTANDER", "bystander.go.txt")
+	// processed earlier in the same run (file names sort): per-file state of the compiler must not leak
+	fs.Template.SFiles["a_lit.go"] = `package src
+
+import . "github.com/goghcrow/go-co"
+
+// ALit holds a generator literal
+var ALit = func() Iter[int] {
+	// a comment inside the literal
+	Yield(1)
+	return nil
+}
+`
 	return fs
 }
 
 // bystander2Family: a processed file with a named API import that declares its own Iter / Seq /
 // Start / Bind (a package of its own: a dot-import elsewhere in the package would clash).
+// bystander3Family: directives and doc comments in a file that contains a generator literal.
+func bystander3Family(tier string) *FamilySpec {
+	return HandFamily("BYSTANDER3", "bystander3.go.txt")
+}
+
 func bystander2Family(tier string) *FamilySpec {
 	return HandFamily("BYSTANDER2", "bystander2.go.txt")
 }
